@@ -1,6 +1,7 @@
 (** Executable interleaving model of nextline/utils/done_callback/thread.py
     (ThreadDoneCallback) at the granularity of SHARED-MEMORY ACCESSES.
-    Definitions only; proofs are in Safety.v / Partial.v.
+    Definitions only; proofs are in Safety.v, Inv.v, Main.v (safety) and Live.v, Term.v,
+    Progress.v (no deadlock, termination of close()).
 
     Every thread (the monitor thread running [_monitor], the thread calling
     [close], any number of threads calling [register] on themselves) executes
